@@ -104,6 +104,21 @@ claim("C02",
       "padding section. Partial: torrent creation from a directory is outside.",
       "DESIGN.md §4 C02")
 
+claim("C09",
+      "Per-call proofs over the real picker, for every picker state and peer: whatever findPiece returns is not done, not "
+      "being written, held by the peer, comes from an idle peer, is allowed-fast when the peer is choking, and has fewer "
+      "running requests than the end-game limit (or none); in sequential mode with the file edges taken an unchoking peer "
+      "gets the lowest-indexed eligible piece (recursive-free quantified specs, loop invariants in pickSequential / "
+      "pickFileEdge); findGaps returns ascending, disjoint ranges of unowned, unfinished pieces; a range handed to a web "
+      "seed (fresh gap, file tail, or stolen from another source) contained only unowned pieces, so PickWebseed's "
+      "ownership assertion cannot fire; stop-at/close release exactly their range and never mark another piece; the "
+      "available counter moves by one exactly when a piece gains its first or loses its last holder. sliceset Add/Remove/"
+      "Has are proved against a membership predicate. Partial: these are function contracts; that the torrent calls them "
+      "in an order that keeps the per-peer one-download rule and the owner/range agreement across calls is a history "
+      "property that the contracts state as preconditions (indexed(p) is established by New and has no other writer), "
+      "not prove; slices.SortFunc / Index / Contains are trusted models.",
+      "DESIGN.md §4 C09")
+
 claim("C11",
       "Proof, for every field value, that each message type reports the protocol's message id (BEP 3/6/10 numbers taken "
       "from the property, not from the code), that fixed-layout bodies (have, request, cancel/reject, piece header, port) "
